@@ -109,9 +109,14 @@ func (collection *rcLinkCollectionImpl) EntityDeleted(tx *bbolt.Tx, id string) e
 	fieldBucket := collection.getFieldBucket(tx, bId)
 
 	if !fieldBucket.HasError() {
+		// collect first, see linkCollectionImpl.EntityDeleted
+		var keys [][]byte
 		cursor := fieldBucket.Cursor()
 		for val, _ := cursor.First(); val != nil; val, _ = cursor.Next() {
 			_, key := GetTypeAndValue(val)
+			keys = append(keys, clone(key))
+		}
+		for _, key := range keys {
 			// We don't need to remove the local entry because the parent bucket is getting deleted
 			if err := collection.otherField.unlink(tx, key, bId); err != nil {
 				return err
